@@ -1,6 +1,6 @@
 // Unit `commands` (C03, C04, C05): the setup/cleanup functions that commands.rs attaches to each command kind, verbatim,
-// against the ASSUMED World contract of world_prelude.inc.  The trackers' `start` is assumed here (its contract is
-// discharged on the real function by Kani unit K.tracker.*); `end`, `decrement`, `is_done` are verified verbatim.
+// against the ASSUMED World contract of world_prelude.inc.  The trackers' `start` is assumed here (its contract - the same clause text - is
+// PROVED on the verbatim body in unit `trackers`, and restated on the compiled code by Kani unit K.tracker.*); `end`, `decrement`, `is_done` are verified verbatim.
 use vstd::prelude::*;
 verus! {
 //@include prelude.inc
